@@ -6,7 +6,7 @@ strategy consistently.
 """
 import math, sys
 from fractions import Fraction
-from .sx import Sym, Char, Real, Vec, Dot, show_real, f32_bits
+from .sx import Sym, Char, Real, Vec, Dot, RatLit, show_real, f32_bits
 
 sys.setrecursionlimit(20000)
 
@@ -243,6 +243,8 @@ class Machine:
             return lst([self.datum(x) for x in d.items], self.datum(d.tail))
         if isinstance(d, Vec):
             return self.new_vec([self.datum(x) for x in d.items], False)
+        if isinstance(d, RatLit):
+            return self.norm(Fraction(d.n, d.d))
         return d
 
     def new_vec(self, items, mutable):
@@ -317,7 +319,7 @@ class Machine:
             return f.vars[x.name]
         if isinstance(x, (bool, int, Fraction, Real, str, Char)):
             return x
-        if isinstance(x, Vec):
+        if isinstance(x, (Vec, RatLit)):
             return self.datum(x)
         if isinstance(x, list):
             if not x:
